@@ -830,10 +830,10 @@ def run(ctx):
     _evaluate(ctx, _corpus(), 'corpus')
     _evaluate(ctx, directed_cases(), 'directed')
     rng = ctx.subrng('cases')
-    _evaluate(ctx, [gen_case(rng) for _ in range(ctx.n(700, 14000))], 'generated')
+    _evaluate(ctx, [gen_case(rng) for _ in range(ctx.n(700, 50000))], 'generated')
     # conforming subscribers only (filters = real actions): the suffix match must then be invisible
     rng = ctx.subrng('conforming')
-    _evaluate(ctx, [gen_case(rng, arbitrary_filters=False) for _ in range(ctx.n(200, 4000))], 'generated-real-filters')
+    _evaluate(ctx, [gen_case(rng, arbitrary_filters=False) for _ in range(ctx.n(200, 12000))], 'generated-real-filters')
 
 
 def search(ctx):
